@@ -76,14 +76,17 @@ def get_error_class(module: ModuleType) -> type[Error] | None:
 
 def should_load_check(settings: Settings, error: type[Error]) -> bool:
     error_code = ErrorCode.from_error(error)
+    categories = {ErrorCategory(cat) for cat in error.categories}
+
+    # An ignored error code or category is never reported, whatever else is enabled
+    if error_code in settings.ignore or settings.ignore & categories:
+        return False
 
     if error_code in settings.enable:
         return True
 
-    if error_code in (settings.disable | settings.ignore):
+    if error_code in settings.disable:
         return False
-
-    categories = {ErrorCategory(cat) for cat in error.categories}
 
     if settings.enable & categories:
         return True
